@@ -3,24 +3,37 @@
 (*   input space : every propositional formula over Atoms with <= FullConn connectives, and every *)
 (*                 such formula with <= MaxConn connectives whose atoms occur in first-occurrence *)
 (*                 order a, b, c (one representative per renaming of the atoms); and the family   *)
-(*                 Repeats of formulas with a repeated sub-formula (X op X in every small context) *)
+(*                 Repeats of formulas with a repeated sub-formula (X op X in every small context); *)
+(*                 the ATOM NAME SPACE as a dimension: the family Clash of every formula with <=     *)
+(*                 ClashConn connectives over ClashAtoms \cup XAtoms that mentions an atom whose name *)
+(*                 belongs to the encoder's fresh-name scheme (XAtoms: "x1", "x2", ...); and the      *)
+(*                 family ConstF of every formula with <= ConstConn connectives over ConstAtoms and   *)
+(*                 the constants true / false as leaves that mentions a constant                      *)
 (*   state       : f, phase, enc (reference encoding: definitions x_i <-> .., clauses)            *)
 (*   action      : Encode                                                                         *)
 (*   properties  : RefTheoremValid   defs, f |- conjunction of the clauses   (the shape of the     *)
 (*                                   theorem that tseitin.encode returns)                          *)
 (*                 RefEquisat        the clauses are satisfiable iff f is                           *)
-(*                 RefDefinitional   every definition introduces a fresh variable                   *)
+(*                 RefTopIsVariable  f rewritten with the definitions is the variable of f              *)
+(*                 RefDefinitional   the definitions are DefsFresh: equations v <-> rhs, the v's pairwise    *)
+(*                                   distinct, not in f, not circular                                 *)
+(*                 RefConservative   ... hence every model of f extends to a model of the definitions *)
 (* The formulas are written as vectors (POSTCONDITION Emit) and replayed into prover/tseitin.py.  *)
 EXTENDS C15_Prop, SequencesExt, Json, IOUtils
 
 CONSTANTS Atoms, FullConn, MaxConn,
-          RepFull     \* repeated-sub-formula family: contexts on both sides and with both atoms (FALSE: one side, atom a)
+          RepFull,    \* repeated-sub-formula family: contexts on both sides and with both atoms (FALSE: one side, atom a)
+          ClashAtoms, XAtoms, ClashConn,    \* name-space family: ordinary names, names of the fresh-name scheme, size bound
+          ConstAtoms, ConstConn,            \* constants family: atoms next to the leaves true / false, size bound
+          WithConsts                        \* FALSE: no constants family
 
-RECURSIVE F(_)
-\* all formulas with exactly n connectives
-F(n) == IF n = 0 THEN { <<"atom", a>> : a \in Atoms }
-        ELSE { <<"not", g>> : g \in F(n - 1) }
-             \cup UNION { UNION { { <<op, g, h>> : g \in F(i), h \in F(n - 1 - i) } : op \in BinOps } : i \in 0..(n - 1) }
+\* all formulas with exactly n connectives over the leaves L
+RECURSIVE FL(_, _)
+FL(n, L) == IF n = 0 THEN L
+            ELSE { <<"not", g>> : g \in FL(n - 1, L) }
+                 \cup UNION { UNION { { <<op, g, h>> : g \in FL(i, L), h \in FL(n - 1 - i, L) } : op \in BinOps } : i \in 0..(n - 1) }
+Leaves(A) == { <<"atom", a>> : a \in A }
+F(n) == FL(n, Leaves(Atoms))
 \* atoms in left-to-right order
 RECURSIVE AtomSeq(_)
 AtomSeq(f) == CASE f[1] = "atom" -> <<f[2]>>
@@ -43,11 +56,23 @@ Ctx(S) == { <<"not", x>> : x \in S }
           \cup { <<op, x, y>> : op \in BinOps, x \in S, y \in CtxAtoms }
           \cup { <<op, y, x>> : op \in (IF RepFull THEN BinOps ELSE {"imp"}), x \in S, y \in CtxAtoms }
 Repeats == Rep0 \cup Ctx(Rep0) \cup Ctx(Ctx(Rep0))
-Formulas == UNION { F(n) : n \in 0..FullConn } \cup UNION { { f \in F(n) : Canon(f) } : n \in (FullConn + 1)..MaxConn } \cup Repeats
+NoFormulas == {}        \* (C15_Tseitin_clash.cfg, the scope of the naming mutant, leaves the family Repeats out: Repeats <- NoFormulas)
+\* ---- the atom name space: atoms that carry a name of the encoder's own scheme x1, x2, ... next to ordinary ones
+Clash == { g \in UNION { FL(n, Leaves(ClashAtoms \cup XAtoms)) : n \in 0..ClashConn } : AtomsOf(g) \cap XAtoms # {} }
+\* ---- the constants true / false as leaves
+RECURSIVE HasConst(_)
+HasConst(g) == CASE g[1] = "not" -> HasConst(g[2])
+                 [] g[1] \in BinOps -> HasConst(g[2]) \/ HasConst(g[3])
+                 [] OTHER -> g[1] \in {"true", "false"}
+ConstF == IF WithConsts
+          THEN { g \in UNION { FL(n, Leaves(ConstAtoms) \cup { <<"true">>, <<"false">> }) : n \in 0..ConstConn } : HasConst(g) }
+          ELSE {}
+Formulas == UNION { F(n) : n \in 0..FullConn } \cup UNION { { g \in F(n) : Canon(g) } : n \in (FullConn + 1)..MaxConn } \cup Repeats
+            \cup Clash \cup ConstF
 
 VARIABLES f, phase, enc
 vars == <<f, phase, enc>>
-NoEnc == [subs |-> <<>>, defs |-> <<>>, cnf |-> <<>>]
+NoEnc == [subs |-> <<>>, names |-> <<>>, defs |-> <<>>, top |-> <<"none">>, cnf |-> <<>>]
 Init == f \in Formulas /\ phase = "formula" /\ enc = NoEnc
 Encode == phase = "formula" /\ enc' = RefEncode(f) /\ phase' = "encoded" /\ UNCHANGED f
 Next == Encode
@@ -60,12 +85,20 @@ RECURSIVE Conj(_, _)
 Conj(cnf, k) == IF k > Len(cnf) THEN <<"true">> ELSE <<"and", Disj(cnf[k], 1), Conj(cnf, k + 1)>>
 RefTheoremValid == phase = "encoded" => SeqValid(Append(enc.defs, f), Conj(enc.cnf, 1))
 RefEquisat == phase = "encoded" => Equisatisfiable(enc.cnf, f)
+\* rewriting f with the definitions leaves the variable of f: the unit clause of the encoding
+RefTopIsVariable == phase = "encoded" => SameF(enc.top, <<"atom", enc.names[Len(enc.names)]>>)
 RefDefinitional == phase = "encoded" =>
    /\ Len(enc.defs) = Len(enc.subs) /\ enc.subs[Len(enc.subs)] = f
-   /\ \A i \in 1..Len(enc.defs) : \A x \in AtomsOf(enc.defs[i][3]) : x \in AtomsOf(f) \/ \E j \in 1..(i - 1) : x = XName(j)
+   /\ DefsFresh(enc.defs, f)
+   /\ \A i \in 1..Len(enc.defs) : \A x \in AtomsOf(enc.defs[i][3]) : x \in AtomsOf(f) \/ \E j \in 1..(i - 1) : x = enc.names[j]
+\* what the definitional reading is for (brute force over the assignments; formulas with <= 2 connectives: all of the
+\* enumeration and of the name-space and constants families, the small members of Repeats)
+RefConservative == phase = "encoded" /\ NConn(f) <= 2 => Conservative(enc.defs, f)
 
 Emit == LET u == SetToSeq(Formulas) IN
         /\ TLCGet("distinct") >= Len(u)
-        /\ ndJsonSerialize(IOEnv.VECTOR_FILE, [i \in 1..Len(u) |-> [formula |-> u[i], rep |-> (u[i] \in Repeats)]])
+        /\ ndJsonSerialize(IOEnv.VECTOR_FILE, [i \in 1..Len(u) |-> [formula |-> u[i], rep |-> (u[i] \in Repeats),
+                                                                        fam |-> IF u[i] \in Clash THEN "clash" ELSE IF u[i] \in ConstF THEN "const"
+                                                                                ELSE IF u[i] \in Repeats THEN "rep" ELSE "enum"]])
         /\ PrintT(<<"vectors", Len(u)>>)
 =============================================================================
